@@ -1,0 +1,112 @@
+//go:build verif
+
+package iterable
+
+// Contracts for the deductive verifier in /verif (gocv). Comment-only file,
+// compiled only under the `verif` build tag.
+
+// ---- Iterator[E]: ghost model (assumed for arbitrary implementations, proved for intIterator / EmptyIterator) ----
+// seq/slen: the sequence the iterator walks; pos: how many elements it has handed out.
+//@ ghostfield Iterator.seq seq[E]
+//@ ghostfield Iterator.slen int
+//@ ghostfield Iterator.pos int
+
+//@ pred iterOK(it Iterator[E]) = it != nil && 0 <= it.pos && it.pos <= it.slen
+
+//@ assumed func (it Iterator[E]) HasNext() bool
+//@   requires iterOK(it)
+//@   ensures r0 == (it.pos < it.slen)
+
+//@ assumed func (it Iterator[E]) Next() (E, bool)
+//@   requires iterOK(it)
+//@   modifies it.pos
+//@   ensures old(it.pos) <  it.slen ==> r1 && r0 == it.seq[old(it.pos)] && it.pos == old(it.pos) + 1
+//@   ensures old(it.pos) >= it.slen ==> !r1 && r0 == zero(E) && it.pos == old(it.pos)
+
+//@ assumed func (it Iterator[E]) Close() error
+
+// SelectF is an arbitrary but fixed (pure) relation
+//@ spec sel(f SelectF[E], a E, b E) bool = uninterpreted
+//@ assumed func (f SelectF[E]) call(ev1 E, ev2 E) bool
+//@   ensures r0 == sel(f, ev1, ev2)
+
+// ---- C18: Mixer = two-way merge ----
+// c1/c2: number of elements of each source already emitted (look-ahead not counted)
+//@ spec func (mr *Mixer[E]) c1() int = mr.src1.it.pos - ite(mr.src1.load, 1, 0)
+//@ spec func (mr *Mixer[E]) c2() int = mr.src2.it.pos - ite(mr.src2.load, 1, 0)
+//@ spec func (mr *Mixer[E]) len1() int = mr.src1.it.slen
+//@ spec func (mr *Mixer[E]) len2() int = mr.src2.it.slen
+//@ pred (mr *Mixer[E]) wf() = mr != nil && iterOK(mr.src1.it) && iterOK(mr.src2.it) && mr.src1.it != mr.src2.it && mr.sf != nil &&
+//@      (mr.src1.load ==> mr.src1.it.pos >= 1 && mr.src1.e == mr.src1.it.seq[mr.src1.it.pos - 1]) &&
+//@      (mr.src2.load ==> mr.src2.it.pos >= 1 && mr.src2.e == mr.src2.it.seq[mr.src2.it.pos - 1]) &&
+//@      (mr.st == 0 || mr.st == 1 || mr.st == 2 || mr.st == 3) &&
+//@      (mr.st == 1 ==> mr.src1.load && (!mr.src2.load || sel(mr.sf, mr.src1.e, mr.src2.e))) &&
+//@      (mr.st == 2 ==> mr.src2.load && (!mr.src1.load || !sel(mr.sf, mr.src1.e, mr.src2.e))) &&
+//@      (mr.st == 1 && !mr.src2.load ==> mr.src2.it.pos == mr.src2.it.slen) &&
+//@      (mr.st == 2 && !mr.src1.load ==> mr.src1.it.pos == mr.src1.it.slen) &&
+//@      (mr.st == 3 ==> !mr.src1.load && !mr.src2.load && mr.src1.it.pos == mr.src1.it.slen && mr.src2.it.pos == mr.src2.it.slen)
+// the first source's head is emitted next: it has one, and the selector prefers it or the second source is exhausted
+//@ pred (mr *Mixer[E]) first() = mr.c1() < mr.len1() && (mr.c2() >= mr.len2() || sel(mr.sf, mr.src1.it.seq[mr.c1()], mr.src2.it.seq[mr.c2()]))
+
+//@ func (mr *Mixer[E]) selectState()
+//@   inline
+//@ func (mr *Mixer[E]) testFunc() bool
+//@   inline
+//@ func (sd *srcDesc[E]) reset() error
+//@   inline
+
+//@ func (mr *Mixer[E]) Init(sf SelectF[E], it1 Iterator[E], it2 Iterator[E])
+//@   props C18
+//@   requires mr != nil && sf != nil && iterOK(it1) && iterOK(it2) && it1 != it2
+//@   modifies mr.sf, mr.src1, mr.src2, mr.st
+//@   ensures mr.wf() && mr.src1.it == it1 && mr.src2.it == it2 && mr.sf == sf && mr.c1() == it1.pos && mr.c2() == it2.pos
+
+//@ func (mr *Mixer[E]) HasNext() bool
+//@   props C18
+//@   requires mr.wf()
+//@   modifies mr.src1.load, mr.src1.e, mr.src2.load, mr.src2.e, mr.st, mr.src1.it.pos, mr.src2.it.pos
+//@   ensures mr.wf() && mr.c1() == old(mr.c1()) && mr.c2() == old(mr.c2())
+//@   ensures r0 == (mr.c1() < mr.len1() || mr.c2() < mr.len2())
+
+//@ func (mr *Mixer[E]) Next() (E, bool)
+//@   props C18
+//@   requires mr.wf()
+//@   modifies mr.src1.load, mr.src1.e, mr.src2.load, mr.src2.e, mr.st, mr.src1.it.pos, mr.src2.it.pos
+//@   ensures mr.wf()
+//@   ensures old(mr.first()) ==> r1 && r0 == mr.src1.it.seq[old(mr.c1())] && mr.c1() == old(mr.c1()) + 1 && mr.c2() == old(mr.c2())
+//@   ensures !old(mr.first()) && old(mr.c2() < mr.len2()) ==> r1 && r0 == mr.src2.it.seq[old(mr.c2())] && mr.c2() == old(mr.c2()) + 1 && mr.c1() == old(mr.c1())
+//@   ensures !old(mr.first()) && !old(mr.c2() < mr.len2()) ==> !r1 && r0 == zero(E) && mr.c1() == old(mr.c1()) && mr.c2() == old(mr.c2())
+
+//@ func (mr *Mixer[E]) Reset() error
+//@   props C18
+//@   requires mr.wf()
+//@   modifies mr.src1.load, mr.src1.e, mr.src2.load, mr.src2.e, mr.st, mr.src1.it.pos, mr.src2.it.pos
+//@   ensures r0 == nil ==> mr.wf() && mr.c1() == 0 && mr.c2() == 0
+
+// ---- concrete iterators proved against the same model (abstraction: seq = ii.i, slen = len(ii.i), pos = ii.idx) ----
+
+//@ func (ii *intIterator) HasNext() bool
+//@   props C18
+//@   requires ii != nil && 0 <= ii.idx && ii.idx <= len(ii.i)
+//@   ensures r0 == (ii.idx < len(ii.i))
+
+//@ func (ii *intIterator) Next() (int, bool)
+//@   props C18
+//@   requires ii != nil && 0 <= ii.idx && ii.idx <= len(ii.i)
+//@   modifies ii.idx
+//@   ensures old(ii.idx) <  len(ii.i) ==> r1 && r0 == ii.i[old(ii.idx)] && ii.idx == old(ii.idx) + 1
+//@   ensures old(ii.idx) >= len(ii.i) ==> !r1 && r0 == 0 && ii.idx == old(ii.idx)
+
+//@ func (ii *intIterator) Reset() error
+//@   props C18
+//@   requires ii != nil
+//@   modifies ii.idx
+//@   ensures r0 == nil && ii.idx == 0
+
+//@ func (ei *EmptyIterator[V]) HasNext() bool
+//@   props C18
+//@   ensures !r0
+
+//@ func (ei *EmptyIterator[V]) Next() (V, bool)
+//@   props C18
+//@   ensures !r1 && r0 == zero(V)
